@@ -19,3 +19,5 @@ for _p in ("C16", "C17", "C18"):
 import checks_tuner
 for _p in ("C19", "C20"):
     CHECKS[_p] = checks_tuner.run
+import checks_uci
+CHECKS["C13"] = checks_uci.c13
